@@ -5,3 +5,8 @@ type Foo struct {
 	A string
 	N int64
 }
+
+// Item also exists in pk2, where it has one more field.
+type Item struct {
+	N int64
+}
